@@ -105,7 +105,7 @@ func anyShapePayload() *core.Payload {
 	case 2:
 		must(f.SetAttributes(&fwdtypes.HypAttributes{
 			TokenId: verif.Bytes("token", n), DestinationDomain: uint32(verif.Choose("domain", 3)), Recipient: verif.Bytes("recipient", n),
-			CustomHookId: [][]byte{nil, make([]byte, 32), {1}}[verif.Choose("hook", 3)], CustomHookMetadata: []string{"", "0x00", "zz"}[verif.Choose("metadata", 3)],
+			CustomHookId: [][]byte{nil, make([]byte, 32), {1}}[verif.Choose("hook", 3)], CustomHookMetadata: []string{"", "0x00", "zz", "0", "0x", "0x0"}[verif.Choose("metadata", 6)],
 			GasLimit: verif.BigInt("gas"), MaxFee: sdk.Coin{Denom: []string{"uusdc", "", "!!"}[verif.Choose("maxfee-denom", 3)], Amount: verif.BigInt("maxfee")},
 		}))
 	case 3:
@@ -125,8 +125,8 @@ func H_C14_shapes() {
 	verif.Assume(A.IsPositive()) // (amounts that are not positive integers: H_C14_packet)
 	ta, err := core.NewTransferAttributes(core.PROTOCOL_IBC, "channel-0", nativeDenom, A)
 	must(err)
-	w.L.Set(core.ModuleAddress, nativeDenom, A)
 	if verif.Bool("straight-to-dispatcher") {
+		w.L.Set(core.ModuleAddress, nativeDenom, A)
 		// the dispatcher is an exported entry point of its own and validates what it gets
 		if w.K.Dispatcher().DispatchPayload(w.Ctx, ta, p) != nil {
 			verif.Cover("dispatcher-refused")
@@ -145,6 +145,7 @@ func H_C14_shapes() {
 		verif.Cover("hook-refused")
 		return
 	}
+	w.L.Set(core.ModuleAddress, nativeDenom, A) // the ICS-20 credit happens between the hook and the processing
 	if w.K.Adapter().ProcessPayload(w.Ctx, pkt) != nil {
 		verif.Cover("processing-refused")
 		return
